@@ -10,6 +10,12 @@ from .types import BOOL, INT, REAL, STR, Atom, Enum, MapT, ObjT, Opt, OpaqueT, R
 _counter = itertools.count()
 
 
+def reset_names(start: int = 1_000_000) -> None:
+    """generated names restart per verified function: the same function and contracts give the same VCs whatever ran before"""
+    global _counter
+    _counter = itertools.count(start)
+
+
 def fresh_name(prefix: str) -> str:
     return f"{prefix}!{next(_counter)}"
 
